@@ -17,6 +17,8 @@ type ModelMsg struct {
 	Fields   map[int]string // sindex -> expected canonical value (fields present on the wire or set by rule)
 	DontCare map[int]bool   // sindex -> value deliberately not checked (DESIGN 2.5 don't-cares)
 	Comp     bool
+	FD       map[int][3]int // sindex -> definition triple that carried the field
+	BE       bool
 }
 
 type ufKey struct {
@@ -283,7 +285,7 @@ func interpret(ops []Op) *ModelOut {
 				out.DataOps++
 				continue
 			}
-			mm := ModelMsg{Global: def.Global, Op: i, Fields: map[int]string{}, DontCare: map[int]bool{}, Comp: op.Data.Comp}
+			mm := ModelMsg{Global: def.Global, Op: i, Fields: map[int]string{}, DontCare: map[int]bool{}, Comp: op.Data.Comp, FD: map[int][3]int{}, BE: def.be()}
 			if op.Data.Comp {
 				if tsf := prof.Field(def.Global, 253); tsf != nil && tsf.Kind == kindUTC {
 					if compDontCare {
@@ -310,6 +312,7 @@ func interpret(ops []Op) *ModelOut {
 					}
 					continue
 				}
+				mm.FD[pf.SIndex] = fd
 				v, care := interpField(pf, byte(fd[2]), b, def.be(), tm)
 				if !care {
 					mm.DontCare[pf.SIndex] = true
